@@ -26,18 +26,15 @@ Proof.
   assert (NIv : ~ In x vals) by (intros HIn; destruct (V3 x x HIn (reach_refl _ _)) as (N & _); congruence).
   assert (TV : forall y, reach h1 r y -> ~ In y vals).
   { intros y Ry Hv. specialize (Lo y Ry). destruct (Subs_In _ _ _ _ _ SS Hv) as (lo' & hi' & A1 & A2 & S). pose proof (Sub_le _ _ _ _ S). lia. }
-  (* the value error paths: only the fresh values were re-parented *)
-  destruct (miter_parent_spec x vals h1 NIv) as (hp & Ep & LHp & Op & Vp).
-  assert (Ip : Inv hp r) by (eapply Inv_frame; [|exact I1]; intros y Ry; apply Op; auto).
-  assert (Gxp : get hp x = Some nx) by (destruct LHp as (_ & Ex & _); congruence).
-  assert (ERR : node_setitem_slice x a b (Some st) vals h1 = (hp, E ExValue) -> Inv h' r).
-  { intros EE. unfold loop_setitem_slice in H. rewrite (bind_E _ _ _ _ _ EE) in H. inversion H; subst. exact Ip. }
+  (* the value error paths (round 4: the slice is validated before anything is re-parented): nothing happened *)
+  assert (ERR : node_setitem_slice x a b (Some st) vals h1 = (h1, E ExValue) -> Inv h' r).
+  { intros EE. unfold loop_setitem_slice in H. rewrite (bind_E _ _ _ _ _ EE) in H. inversion H; subst. exact I1. }
   destruct (slice_indices a b (Some st) (Z.of_nat (length (children nx)))) as [[[s e] st']|] eqn:SI.
-  2:{ apply ERR. unfold node_setitem_slice. rewrite (bind_R _ _ _ _ _ Ep). rewrite (bind_getn x nx _ hp Gxp). rewrite SI. reflexivity. }
+  2:{ apply ERR. unfold node_setitem_slice. rewrite (bind_getn x nx _ h1 Gx). rewrite SI. reflexivity. }
   destruct (slice_ext_valid a b st _ s e st' (Nat2Z.is_nonneg _) SI) as (-> & N0 & _).
   assert (E1f : (st =? 1)%Z = false) by (apply Z.eqb_neq; auto).
   destruct (Z.eqb_spec (Z.of_nat (length vals)) (range_len s e st)) as [Ek|Nk].
-  2:{ apply ERR. unfold node_setitem_slice. rewrite (bind_R _ _ _ _ _ Ep). rewrite (bind_getn x nx _ hp Gxp). rewrite SI, E1f.
+  2:{ apply ERR. unfold node_setitem_slice. rewrite (bind_getn x nx _ h1 Gx). rewrite SI, E1f.
       assert ((Z.of_nat (length vals) =? range_len s e st)%Z = false) by (apply Z.eqb_neq; auto). rewrite H0. reflexivity. }
   assert (NIc : ~ In x (children nx)) by (intros HIn; eapply (rp_x_not_own_child h1 r x nx I1 Rx1 Gx); eauto).
   assert (NDc : NoDup (children nx)) by (eapply (children_NoDup _ _ _ I1); eauto).
